@@ -17,19 +17,19 @@ variable {σ σ₁ σ₂ α : Type} [DecidableEq σ] [DecidableEq σ₁] [Decida
 /-- Two lists denote the same set. -/
 def SetEq (l₁ l₂ : List σ) : Prop := ∀ x, x ∈ l₁ ↔ x ∈ l₂
 
-theorem mem_canon (n : NFA σ α) (S : List σ) (q : σ) : q ∈ n.canon S ↔ q ∈ n.states ∧ q ∈ S := by
-  unfold canon; simp
+theorem mem_subsetCanon (n : NFA σ α) (S : List σ) (q : σ) : q ∈ n.subsetCanon S ↔ q ∈ n.states ∧ q ∈ S := by
+  unfold subsetCanon; simp
 
-theorem canon_congr (n : NFA σ α) {S T : List σ} (h : SetEq S T) : n.canon S = n.canon T := by
-  unfold canon
+theorem subsetCanon_congr (n : NFA σ α) {S T : List σ} (h : SetEq S T) : n.subsetCanon S = n.subsetCanon T := by
+  unfold subsetCanon
   apply List.filter_congr
   intro x _
   simp only [decide_eq_decide]
   exact h x
 
-theorem canon_setEq (n : NFA σ α) {S : List σ} (h : ∀ q ∈ S, q ∈ n.states) : SetEq (n.canon S) S := by
+theorem subsetCanon_setEq (n : NFA σ α) {S : List σ} (h : ∀ q ∈ S, q ∈ n.states) : SetEq (n.subsetCanon S) S := by
   intro x
-  rw [mem_canon]
+  rw [mem_subsetCanon]
   exact ⟨fun hx => hx.2, fun hx => ⟨h x hx, hx⟩⟩
 
 theorem nextStates_congr (n : NFA σ α) {S T : List σ} (h : SetEq S T) (a : α) :
@@ -118,33 +118,33 @@ theorem runFrom_congr (n : NFA σ α) {S T : List σ} (h : SetEq S T) (w : List 
 a set `S` yields the canonical form of the NFA's run from `S`. -/
 theorem runW_inl (A : NFA σ₁ α) (B : NFA σ₂ α) (wfA : A.WF) (S : List σ₁) (hS : ∀ q ∈ S, q ∈ A.states)
     (w : List α) :
-    HK.runW (eqStep A B) (.inl (A.canon S)) w = .inl (A.canon (A.runFrom S w)) := by
+    HKG.runW (eqStep A B) (.inl (A.subsetCanon S)) w = .inl (A.subsetCanon (A.runFrom S w)) := by
   induction w generalizing S with
   | nil => rfl
   | cons a w ih =>
-    simp only [HK.runW_cons, eqStep]
-    have e : A.canon (A.nextStates (A.canon S) a) = A.canon (A.nextStates S a) :=
-      canon_congr A (nextStates_congr A (canon_setEq A hS) a)
+    simp only [HKG.runW_cons, eqStep]
+    have e : A.subsetCanon (A.nextStates (A.subsetCanon S) a) = A.subsetCanon (A.nextStates S a) :=
+      subsetCanon_congr A (nextStates_congr A (subsetCanon_setEq A hS) a)
     rw [e, ih (A.nextStates S a) (fun q h => nextStates_sub_states wfA S a h)]
     rfl
 
 theorem runW_inr (A : NFA σ₁ α) (B : NFA σ₂ α) (wfB : B.WF) (S : List σ₂) (hS : ∀ q ∈ S, q ∈ B.states)
     (w : List α) :
-    HK.runW (eqStep A B) (.inr (B.canon S)) w = .inr (B.canon (B.runFrom S w)) := by
+    HKG.runW (eqStep A B) (.inr (B.subsetCanon S)) w = .inr (B.subsetCanon (B.runFrom S w)) := by
   induction w generalizing S with
   | nil => rfl
   | cons a w ih =>
-    simp only [HK.runW_cons, eqStep]
-    have e : B.canon (B.nextStates (B.canon S) a) = B.canon (B.nextStates S a) :=
-      canon_congr B (nextStates_congr B (canon_setEq B hS) a)
+    simp only [HKG.runW_cons, eqStep]
+    have e : B.subsetCanon (B.nextStates (B.subsetCanon S) a) = B.subsetCanon (B.nextStates S a) :=
+      subsetCanon_congr B (nextStates_congr B (subsetCanon_setEq B hS) a)
     rw [e, ih (B.nextStates S a) (fun q h => nextStates_sub_states wfB S a h)]
     rfl
 
-theorem setFinal_canon {n : NFA σ α} {S : List σ} (hS : n.GoodSet S) :
-    n.setFinal (n.canon S) = n.anyFinal S := by
-  have hse := canon_setEq n hS.sub
-  have hg : n.GoodSet (n.canon S) :=
-    ⟨fun q hq => ((mem_canon n S q).mp hq).1,
+theorem setFinal_subsetCanon {n : NFA σ α} {S : List σ} (hS : n.GoodSet S) :
+    n.setFinal (n.subsetCanon S) = n.anyFinal S := by
+  have hse := subsetCanon_setEq n hS.sub
+  have hg : n.GoodSet (n.subsetCanon S) :=
+    ⟨fun q hq => ((mem_subsetCanon n S q).mp hq).1,
      epsClosed_congr n (fun x => (hse x).symm) hS.closed⟩
   rw [setFinal_eq_anyFinal hg.sub hg.closed]
   exact anyFinal_congr n hse
@@ -152,19 +152,19 @@ theorem setFinal_canon {n : NFA σ α} {S : List σ} (hS : n.GoodSet S) :
 /-- The subset system started at the canonical λ-closure of the initial state decides
 exactly the NFA's acceptance. -/
 theorem eqIsFinal_runW_inl (A : NFA σ₁ α) (B : NFA σ₂ α) (wfA : A.WF) (w : List α) :
-    eqIsFinal A B (HK.runW (eqStep A B) (.inl (A.canon (A.closure A.init))) w) = A.accepts w := by
+    eqIsFinal A B (HKG.runW (eqStep A B) (.inl (A.subsetCanon (A.closure A.init))) w) = A.accepts w := by
   have hg := goodSet_start wfA
   rw [runW_inl A B wfA _ hg.sub w]
   simp only [eqIsFinal]
-  rw [setFinal_canon (goodSet_runFrom wfA hg w)]
+  rw [setFinal_subsetCanon (goodSet_runFrom wfA hg w)]
   rfl
 
 theorem eqIsFinal_runW_inr (A : NFA σ₁ α) (B : NFA σ₂ α) (wfB : B.WF) (w : List α) :
-    eqIsFinal A B (HK.runW (eqStep A B) (.inr (B.canon (B.closure B.init))) w) = B.accepts w := by
+    eqIsFinal A B (HKG.runW (eqStep A B) (.inr (B.subsetCanon (B.closure B.init))) w) = B.accepts w := by
   have hg := goodSet_start wfB
   rw [runW_inr A B wfB _ hg.sub w]
   simp only [eqIsFinal]
-  rw [setFinal_canon (goodSet_runFrom wfB hg w)]
+  rw [setFinal_subsetCanon (goodSet_runFrom wfB hg w)]
   rfl
 
 theorem sameSyms_iff (xs ys : List α) : sameSyms xs ys = true ↔ ∀ a, a ∈ xs ↔ a ∈ ys := by
